@@ -93,6 +93,8 @@ pub uninterp spec fn slot_value(s: int) -> int;               // the value sent 
 impl<T> OwnView for OsSender<T> { open spec fn own(&self) -> Own { own_none() } }
 impl<T> OsSender<T> {
     pub uninterp spec fn slot(&self) -> int;
+    // Sender::is_canceled: whether the receiving half is gone already (the caller gave up); says nothing about the message
+    #[verifier::external_body] pub fn is_canceled(&self) -> (r: bool) { unimplemented!() }
     #[verifier::external_body]
     pub fn send(self, t: T, Tracked(w): Tracked<&mut World>) -> (r: Result<(), T>)
         ensures emits(old(w), final(w), Ev::OsSend { slot: self.slot(), val: rid(&t) }), slot_value(self.slot()) == rid(&t)
